@@ -23,8 +23,8 @@ PROPS = {
     "C15": {
         "case_sets": ["lex", "parse"],
         "ops": ["SPLIT", "PIECES"],
-        "lean_targets": ["PqlModel.Props.C15", "PqlModel.Props.C15Parse", "PqlModel.Props.C16Semantics", "PqlModel.Props.C09Dispatch", "PqlModel.Props.C15SplitIR"],
-        "facts": ["keywords", "lexSplitIR"],
+        "lean_targets": ["PqlModel.Props.C15", "PqlModel.Props.C15Parse", "PqlModel.Props.C16Semantics", "PqlModel.Props.C09Dispatch", "PqlModel.Props.C15SplitIR", "PqlModel.Props.C07OperatorIRParse"],
+        "facts": ["keywords", "lexSplitIR", "parseIR"],
         "rule": "SPLIT: same sources as C09 (exhaustive short strings over the scanner alphabet, which contains ';', all "
                 "three quote characters, backslash, newline and the comment opener, plus random fragment concatenations); "
                 "non-trivial = distinct source that splits into at least two pieces or contains a semicolon that does not split",
@@ -33,7 +33,7 @@ PROPS = {
         "case_sets": ["parse"],
         "ops": ["PARSE", "PARSEV"],
         "oracle_clauses": [r"c07-.*", r"c08-unaccounted", r"c15-statement-count", r"unreadable-.*"],
-        "lean_targets": ["PqlModel.Props.C07", "PqlModel.Props.C07Full", "PqlModel.Props.C07Layout", "PqlModel.Props.C07Keywords", "PqlModel.Props.C07Defaults", "PqlModel.Props.C07OperatorIRTreesA", "PqlModel.Props.C07OperatorIRTreesB", "PqlModel.Props.C07OperatorIR", "PqlModel.Props.C07OperatorIRSort", "PqlModel.Props.C07OperatorIRExtend", "PqlModel.Props.C07OperatorIRProject", "PqlModel.Props.C07OperatorIRLet", "PqlModel.Props.C07OperatorIRTabular"],
+        "lean_targets": ["PqlModel.Props.C07", "PqlModel.Props.C07Full", "PqlModel.Props.C07Layout", "PqlModel.Props.C07Keywords", "PqlModel.Props.C07Defaults", "PqlModel.Props.C07OperatorIRTreesA", "PqlModel.Props.C07OperatorIRTreesB", "PqlModel.Props.C07OperatorIR", "PqlModel.Props.C07OperatorIRSort", "PqlModel.Props.C07OperatorIRExtend", "PqlModel.Props.C07OperatorIRProject", "PqlModel.Props.C07OperatorIRLet", "PqlModel.Props.C07OperatorIRTabular", "PqlModel.Props.C07OperatorIRSummarize", "PqlModel.Props.C07OperatorIRRender", "PqlModel.Props.C07OperatorIRJoin", "PqlModel.Props.C07OperatorIRParse"],
         "facts": ["precedence", "keywords", "joinTypes", "operatorKeywords", "sortTermInit", "sortTermFirst", "sortTermNullsKeyword", "sortTermNulls", "rowCountCheck", "joinInit", "joinKindKeyword", "joinKindSets", "joinUnknownFlavorContinues", "parseIR"],
         "rule": "PARSEV: programs generated from the grammar (every operator, every expression form incl. the `in` rule, "
                 "nested joins, lets, render; random layout, comments, keyword synonyms, redundant and required parentheses); "
@@ -44,7 +44,7 @@ PROPS = {
         "case_sets": ["parse"],
         "ops": ["PARSE", "PARSEV"],
         "oracle_clauses": [r"c08-.*", r"unreadable-.*"],
-        "lean_targets": ["PqlModel.Props.C08", "PqlModel.Props.C08Full", "PqlModel.Props.C08Reject", "PqlModel.Props.C08RejectCx", "PqlModel.Props.C07OperatorIRTreesA", "PqlModel.Props.C07OperatorIRTreesB", "PqlModel.Props.C07OperatorIR", "PqlModel.Props.C07OperatorIRSort", "PqlModel.Props.C07OperatorIRExtend", "PqlModel.Props.C07OperatorIRProject", "PqlModel.Props.C07OperatorIRLet", "PqlModel.Props.C07OperatorIRTabular"],
+        "lean_targets": ["PqlModel.Props.C08", "PqlModel.Props.C08Full", "PqlModel.Props.C08Reject", "PqlModel.Props.C08RejectCx", "PqlModel.Props.C07OperatorIRTreesA", "PqlModel.Props.C07OperatorIRTreesB", "PqlModel.Props.C07OperatorIR", "PqlModel.Props.C07OperatorIRSort", "PqlModel.Props.C07OperatorIRExtend", "PqlModel.Props.C07OperatorIRProject", "PqlModel.Props.C07OperatorIRLet", "PqlModel.Props.C07OperatorIRTabular", "PqlModel.Props.C07OperatorIRSummarize", "PqlModel.Props.C07OperatorIRRender", "PqlModel.Props.C07OperatorIRJoin", "PqlModel.Props.C07OperatorIRParse"],
         "facts": ["parseIR"],
         "rule": "same sources as C07; the oracle re-prints the implementation's tree and compares it with the reference "
                 "tokenizer's tokens of the source; non-trivial = distinct corrupted or generated source, accepted or rejected",
@@ -53,7 +53,7 @@ PROPS = {
         "case_sets": ["parse"],
         "ops": ["PARSE", "PARSEV", "LINECOL"],
         "oracle_clauses": [r"c10-.*", r"unreadable-.*"],
-        "lean_targets": ["PqlModel.Props.C10", "PqlModel.Props.C08Full", "PqlModel.Props.C10Linecol", "PqlModel.Props.C10Failed", "PqlModel.Props.C10Extent", "PqlModel.Props.C10Compile", "PqlModel.Props.C10SpanIR", "PqlModel.Props.C10SpanIRNodes", "PqlModel.Props.C10LinecolIR", "PqlModel.Props.C07OperatorIRTreesA", "PqlModel.Props.C07OperatorIRTreesB", "PqlModel.Props.C07OperatorIR", "PqlModel.Props.C07OperatorIRSort", "PqlModel.Props.C07OperatorIRExtend", "PqlModel.Props.C07OperatorIRProject", "PqlModel.Props.C07OperatorIRLet", "PqlModel.Props.C07OperatorIRTabular"],
+        "lean_targets": ["PqlModel.Props.C10", "PqlModel.Props.C08Full", "PqlModel.Props.C10Linecol", "PqlModel.Props.C10Failed", "PqlModel.Props.C10Extent", "PqlModel.Props.C10Compile", "PqlModel.Props.C10SpanIR", "PqlModel.Props.C10SpanIRNodes", "PqlModel.Props.C10LinecolIR", "PqlModel.Props.C07OperatorIRTreesA", "PqlModel.Props.C07OperatorIRTreesB", "PqlModel.Props.C07OperatorIR", "PqlModel.Props.C07OperatorIRSort", "PqlModel.Props.C07OperatorIRExtend", "PqlModel.Props.C07OperatorIRProject", "PqlModel.Props.C07OperatorIRLet", "PqlModel.Props.C07OperatorIRTabular", "PqlModel.Props.C07OperatorIRSummarize", "PqlModel.Props.C07OperatorIRRender", "PqlModel.Props.C07OperatorIRJoin", "PqlModel.Props.C07OperatorIRParse"],
         "facts": ["structFields", "spanUnion", "astIR", "astSpanReturns", "linecolIR", "parseIR"],
         "rule": "same sources as C07 in multi-line / tab / comment / non-ASCII layouts; every span field and every Span() "
                 "result of every node (reflection) is compared with the model and checked against the token positions; "
@@ -125,7 +125,7 @@ PROPS = {
         "case_sets": ["compile"],
         "ops": ["COMPILE", "COMPILESEQ"],
         "oracle_clauses": [r"c13-.*", r"unreadable-.*"],
-        "lean_targets": ["PqlModel.Props.C13", "PqlModel.Props.C13Exact", "PqlModel.Props.C13Arity", "PqlModel.Props.C01WriteExprIRAll", "PqlModel.Props.C06CompileIR", "PqlModel.Props.C07OperatorIRTreesA", "PqlModel.Props.C07OperatorIRTreesB", "PqlModel.Props.C07OperatorIR", "PqlModel.Props.C07OperatorIRSort", "PqlModel.Props.C07OperatorIRExtend", "PqlModel.Props.C07OperatorIRProject", "PqlModel.Props.C07OperatorIRLet", "PqlModel.Props.C07OperatorIRTabular"],
+        "lean_targets": ["PqlModel.Props.C13", "PqlModel.Props.C13Exact", "PqlModel.Props.C13Arity", "PqlModel.Props.C01WriteExprIRAll", "PqlModel.Props.C06CompileIR", "PqlModel.Props.C07OperatorIRTreesA", "PqlModel.Props.C07OperatorIRTreesB", "PqlModel.Props.C07OperatorIR", "PqlModel.Props.C07OperatorIRSort", "PqlModel.Props.C07OperatorIRExtend", "PqlModel.Props.C07OperatorIRProject", "PqlModel.Props.C07OperatorIRLet", "PqlModel.Props.C07OperatorIRTabular", "PqlModel.Props.C07OperatorIRSummarize", "PqlModel.Props.C07OperatorIRRender", "PqlModel.Props.C07OperatorIRJoin", "PqlModel.Props.C07OperatorIRParse"],
         "facts": ["writerArityGuard", "knownFunctions", "joinTypes", "exprIR", "parseIR"],
         "rule": "COMPILE on generated programs, the same with a token corrupted, and a corpus of every documented misuse; the oracle "
                 "evaluates the Misuse predicate on the parsed program and requires error iff (parse error or misuse); "
